@@ -8,7 +8,11 @@ pub const CAP: usize = 3;
 pub const SITE: u32 = 2;
 
 pub struct SkipMap<K, V> {
-    slots: UnsafeCell<[Option<(K, V)>; CAP]>,
+    // keys and values live in two parallel arrays (not an array of `Option<(K, V)>`): with the tuple layout Kani 0.68 lost
+    // writes made through `&V` into interior-mutable values (an `Injector` stored in the map read back empty - reproduced in
+    // a 20-line crate), see DESIGN 8.1
+    keys: UnsafeCell<[Option<K>; CAP]>,
+    vals: UnsafeCell<[Option<V>; CAP]>,
 }
 unsafe impl<K, V> Sync for SkipMap<K, V> {}
 unsafe impl<K, V> Send for SkipMap<K, V> {}
@@ -44,17 +48,27 @@ impl<'a, K, V> Entry<'a, K, V> {
 impl<K, V> SkipMap<K, V> {
     pub fn new() -> Self {
         SkipMap {
-            slots: UnsafeCell::new([const { None }; CAP]),
+            keys: UnsafeCell::new([const { None }; CAP]),
+            vals: UnsafeCell::new([const { None }; CAP]),
         }
     }
-    fn slots(&self) -> &[Option<(K, V)>; CAP] {
-        unsafe { &*self.slots.get() }
+    fn keys(&self) -> &[Option<K>; CAP] {
+        unsafe { &*self.keys.get() }
+    }
+    fn vals(&self) -> &[Option<V>; CAP] {
+        unsafe { &*self.vals.get() }
+    }
+    fn entry_at(&self, i: usize) -> Entry<'_, K, V> {
+        match (&self.keys()[i], &self.vals()[i]) {
+            (Some(k), Some(v)) => Entry { k, v },
+            _ => verif_rt::bound_exceeded("skiplist: empty slot"),
+        }
     }
     pub fn len(&self) -> usize {
         let mut n = 0;
         let mut i = 0;
         while i < CAP {
-            if self.slots()[i].is_some() {
+            if self.keys()[i].is_some() {
                 n += 1;
             }
             i += 1;
@@ -70,9 +84,9 @@ impl<K: Ord, V> SkipMap<K, V> {
     pub fn get<'a>(&'a self, key: &K) -> Option<Entry<'a, K, V>> {
         let mut i = 0;
         while i < CAP {
-            if let Some((k, v)) = &self.slots()[i] {
+            if let Some(k) = &self.keys()[i] {
                 if k == key {
-                    return Some(Entry { k, v });
+                    return Some(self.entry_at(i));
                 }
             }
             i += 1;
@@ -85,13 +99,14 @@ impl<K: Ord, V> SkipMap<K, V> {
         if let Some(e) = self.get(&key) {
             return e;
         }
-        let slots = unsafe { &mut *self.slots.get() };
+        let keys = unsafe { &mut *self.keys.get() };
+        let vals = unsafe { &mut *self.vals.get() };
         let mut i = 0;
         while i < CAP {
-            if slots[i].is_none() {
-                slots[i] = Some((key, f()));
-                let (k, v) = self.slots()[i].as_ref().unwrap();
-                return Entry { k, v };
+            if keys[i].is_none() {
+                keys[i] = Some(key);
+                vals[i] = Some(f());
+                return self.entry_at(i);
             }
             i += 1;
         }
@@ -122,7 +137,7 @@ pub struct Iter<'a, K, V> {
 
 impl<'a, K: Ord, V> Iter<'a, K, V> {
     fn key(&self, i: usize) -> Option<&'a K> {
-        self.map.slots()[i].as_ref().map(|(k, _)| k)
+        self.map.keys()[i].as_ref()
     }
     fn in_window(&self, k: &K) -> bool {
         if let Some(lo) = self.lo {
@@ -142,8 +157,7 @@ impl<'a, K: Ord, V> Iter<'a, K, V> {
         true
     }
     fn entry(&self, i: usize) -> Entry<'a, K, V> {
-        let (k, v) = self.map.slots()[i].as_ref().unwrap();
-        Entry { k, v }
+        self.map.entry_at(i)
     }
 }
 
